@@ -573,6 +573,14 @@ def expected_fields(d, p, tables):
                 exp["value"] = ("text", ", ".join(tb[b] for b in range(n) if bits >> b & 1 and b in tb), bits)
             elif t in ("RESERVED", "SPARE"):
                 exp["value"] = ("int", bits)
+            elif t == "INDIRECT_LOOKUP":
+                # canboat: the name under the pair (bits of the field named by ...FieldOrder, own bits)
+                rf = d["Fields"][f["LookupIndirectEnumerationFieldOrder"] - 1]
+                if "BitOffset" in rf and "BitLength" in rf:
+                    rb = (p >> rf["BitOffset"]) & ((1 << rf["BitLength"]) - 1)
+                    exp["value"] = ("lookup", LI[f["LookupIndirectEnumeration"]].get((rb, bits)), bits)
+            elif t == "STRING_LZ":
+                _lz_expect(exp, p, off)
             elif t == "BINARY":
                 exp["value"] = ("bin", bits)
             elif t == "FLOAT":
@@ -589,9 +597,25 @@ def expected_fields(d, p, tables):
             off += n
         elif t == "STRING_LAU" and positions_known:
             ln = (p >> off) & 0xFF
+            enc = (p >> (off + 8)) & 0xFF
             if ln < 2:
                 in_range = False          # not a well-formed variable-length string
+            elif off + 8 * ln <= 8 * ((p.bit_length() + 7) // 8 + 1):
+                # canboat: n = total length with the two header bytes, encoding 0 = UTF-16, 1 = ASCII/UTF-8; the text is
+                # stated only when the declared bytes lie inside the payload (one zero byte past its end is granted:
+                # the decoder's argument is an integer) and need no codec judgement (ASCII; UTF-16 units of the basic
+                # plane, no byte-order mark)
+                body = ((p >> (off + 16)) & ((1 << (8 * (ln - 2))) - 1)).to_bytes(ln - 2, "little")
+                if enc == 1 and all(b < 128 for b in body):
+                    exp["value"] = ("text", body.decode("ascii"))
+                elif enc == 0 and len(body) % 2 == 0:
+                    units = [body[k] | body[k + 1] << 8 for k in range(0, len(body), 2)]
+                    if all(not 0xD800 <= u <= 0xDFFF for u in units) and (not units or units[0] not in (0xFEFF, 0xFFFE)):
+                        exp["value"] = ("text", "".join(map(chr, units)))
             off += 8 * ln
+        elif t == "STRING_LZ" and positions_known:
+            _lz_expect(exp, p, off)
+            positions_known = False
         elif n is None:
             positions_known = False
             if t != "BINARY" or i != len(d["Fields"]) - 1:
@@ -601,8 +625,21 @@ def expected_fields(d, p, tables):
             lv = next((e for j, e in out if j == f["BitLengthField"] - 1), {}).get("value")
             if lv is None or lv[0] != "num":
                 in_range = False          # the announced length is absent: not a well-formed payload
+            elif n is None and "BitOffset" in f and lv[1].denominator == 1 and lv[1] >= 0 and \
+                    all("BitOffset" in x and "BitLength" in x for x in d["Fields"][:i]):
+                # canboat: the field has as many bits as the named field's value announces
+                exp["value"] = ("bin", (p >> f["BitOffset"]) & ((1 << int(lv[1])) - 1))
         out.append((i, exp))
     return out, in_range
+
+
+def _lz_expect(exp, p, off):
+    """canboat STRING_LZ: length byte, text, terminating zero; stated when the text lies inside the payload and is ASCII"""
+    ln = (p >> off) & 0xFF
+    if off + 8 * (1 + ln) <= 8 * ((p.bit_length() + 7) // 8):
+        body = ((p >> (off + 8)) & ((1 << (8 * ln)) - 1)).to_bytes(ln, "little")
+        if all(b < 128 for b in body):
+            exp["value"] = ("text", body.decode("ascii"))
 
 
 def _value_ok(exp, fld):
@@ -718,6 +755,8 @@ def search(ctx):
         pls = PL.payload_set(d, rng, per_field_classes=True, n_random=ctx.n(2, 8))
         if not ctx.thorough and len(pls) > 40:
             pls = pls[:6] + rng.sample(pls[6:], 34)
+        if _is_var_layout(d):
+            pls = pls + _var_layout_payloads(d, rng, ctx)
         for label, p in pls:
             try:
                 w = check_payload(d, p, tables, warm=(rng.random() < 0.4))
